@@ -74,6 +74,9 @@ func getRequestHeaderValue(r *http.Request, name string) *value.String {
 				return &value.String{Value: c.Value}
 			}
 		}
+		// Cookie names are case-sensitive and separated by ";": the dictionary grammar below
+		// would find a cookie of another spelling and take the separator into its value
+		return &value.String{IsNotSet: true}
 	}
 
 	// Handle reading RFC-8941 dictionary value
@@ -162,10 +165,12 @@ func unsetRequestHeaderValue(r *http.Request, name string) {
 		// Note that the wildcard does not work for header subfield
 		// ref: https://fiddle.fastly.dev/fiddle/288403c5
 		for key := range r.Header {
-			if strings.HasPrefix(key, name) {
+			// Header names are case-insensitive, and the removed headers must read as not set
+			if len(key) >= len(name) && strings.EqualFold(key[:len(name)], name) {
 				r.Header.Del(key)
 			}
 		}
+		r.UnassignPrefix(name)
 		return
 	}
 
@@ -239,10 +244,12 @@ func unsetResponseHeaderValue(r *http.Response, name string) {
 		// Note that the wildcard does not work for header subfield
 		// ref: https://fiddle.fastly.dev/fiddle/288403c5
 		for key := range r.Header {
-			if strings.HasPrefix(key, name) {
+			// Header names are case-insensitive, and the removed headers must read as not set
+			if len(key) >= len(name) && strings.EqualFold(key[:len(name)], name) {
 				r.Header.Del(key)
 			}
 		}
+		r.UnassignPrefix(name)
 		return
 	}
 
